@@ -54,7 +54,7 @@ def draw_value(t, part):
                 if t.bool():
                     return t.int(-3, 3)
                 cnt[0] += 1
-                return b'b%d' % cnt[0]
+                return b'b%d' % cnt[0] if cnt[0] != 2 else b''       # (the second byte string of a payload is empty)
             n = t.choice(3)
             if k == 1:
                 return [tree(d - 1) for _ in range(n)]
@@ -67,7 +67,7 @@ def draw_value(t, part):
     if form == 1:
         return x
     if form == 2:
-        return ['\u00e9\x00\U0001f600', [b'in-list', [x, b'deeper']], {'b': b'\x00' + bytes([7]), 'n': [x, None], 'f': 0.1}]
+        return ['\u00e9\x00\U0001f600', [b'in-list', [x, b'deeper', b'']], {'b': b'\x00' + bytes([7]), 'n': [x, None], 'f': 0.1}]
     if form == 3:
         return (x, 'two')
     return (b'raw', {'k': x}, [x])
